@@ -188,6 +188,22 @@ def check_two_level(ctx, case):
         if not inner:
             ctx.fail("two-level: the provenance feature of the level-1 module, which lies inside the level-2 fragment, "
                      "is not inherited by the level-2 product", case)
+        # … and still cover a stretch that occurs verbatim in the level-1 plasmid they name
+        words = {"r1": case["modA"], "r0": case["vecA"]}
+        seq2 = str(p2.seq)
+        for f in p2.features:
+            nm_ = f.qualifiers.get("plasmid") if f.type == "source" else None
+            if nm_ in words and len(f.location.parts) == 1:
+                a_, b_ = int(f.location.start), int(f.location.end)
+                ok_ = 0 <= a_ < b_ <= len(seq2) and seq2[a_:b_].upper() in (words[nm_] * 2).upper()
+                if not ok_ and nm_ == case["id1"]:
+                    # the level-1 product was given the name of one of its own inputs: this may be the level-2
+                    # provenance feature, which names the product
+                    ok_ = 0 <= a_ < b_ <= len(seq2) and seq2[a_:b_].upper() in (str(p1.seq) * 2).upper()
+                if not ok_:
+                    ctx.fail("two-level: the inherited provenance feature naming {} covers [{}:{}] of the level-2 product, "
+                             "a stretch that does not occur in that plasmid".format(nm_, a_, b_), case)
+                    break
     ctx.note("two-level")
     ctx.case(case, nontrivial=True)
 
